@@ -40,6 +40,37 @@ pub fn addr(i: usize) -> SocketAddr {
         5 => "[::ffff:192.0.2.1]:3478".parse().unwrap(),
         6 => "[::ffff:198.51.100.7]:40000".parse().unwrap(),
         7 => "[2001:db8::1]:3479".parse().unwrap(),
+        // addresses with a special meaning or shape: whatever the transport hands over as the source
+        // of an accepted message is a peer like any other
+        8..=31 => {
+            const SPECIAL: [&str; 24] = [
+                "0.0.0.0:0",
+                "0.0.0.0:3478",
+                "192.0.2.1:0",
+                "255.255.255.255:3478",
+                "224.0.0.1:3478",
+                "239.255.255.250:1900",
+                "127.0.0.1:65535",
+                "169.254.1.1:1",
+                "[::]:0",
+                "[::]:3478",
+                "[::1]:3478",
+                "[ff02::1]:3478",
+                "[ff0e::fb]:5353",
+                "[fe80::1]:3478",
+                "[::ffff:0.0.0.0]:0",
+                "[::ffff:255.255.255.255]:65535",
+                "[2001:db8::1]:0",
+                "[64:ff9b::c000:201]:3478",
+                "[ffff:ffff:ffff:ffff:ffff:ffff:ffff:ffff]:65535",
+                "33.18.164.66:8466",
+                "10.1.2.3:5000",
+                "[fc00::1]:3478",
+                "192.0.2.255:3478",
+                "100.64.0.1:3478",
+            ];
+            SPECIAL[i - 8].parse().unwrap()
+        }
         _ if i % 3 == 0 => format!("[2001:db8:77::{:x}]:{}", i, 20000 + i).parse().unwrap(),
         _ => format!("100.{}.{}.{}:{}", 64 + i / 4096, (i / 16) % 256, i % 256, 20000 + i).parse().unwrap(),
     }
@@ -104,9 +135,10 @@ pub fn tid_index(t: &[u8; 12]) -> Option<usize> {
 
 pub fn creds(i: usize) -> RefCreds {
     match i % 4 {
-        0 => RefCreds::Short("remote-key".into()),
+        // #0 and #2 are longer than the 64-byte HMAC block and share their first 64 bytes
+        0 => RefCreds::Short("remote-key/0123456789abcdefghijklmnopqrstuvwxyzABCDEFGHIJKLMNOPQRS-one".into()),
         1 => RefCreds::Long("user".into(), "realm.example".into(), "p:ss".into()),
-        2 => RefCreds::Short("another-key".into()),
+        2 => RefCreds::Short("remote-key/0123456789abcdefghijklmnopqrstuvwxyzABCDEFGHIJKLMNOPQRS-two".into()),
         _ => RefCreds::Short("local-key".into()),
     }
 }
@@ -174,6 +206,8 @@ pub enum Op {
     /// validates its sender, whatever it carries
     IncomingSigned { request: bool, tid: u8, from: u8, cred: u8, good: bool },
     IncomingBurst { first: u16, count: u16 },
+    /// `count` accepted requests / indications in a row from ONE source address
+    IncomingFlood { from: u8, count: u32 },
     /// `count` requests with the ids of indices first, first+1, ... (>= NTID), all at the current instant
     SendBurst { first: u16, count: u16 },
     Cancel(u8),
@@ -258,6 +292,7 @@ impl Op {
             Op::Incoming { request, tid, from } => json!({"op": "incoming", "request": request, "tid": tid, "from": from}),
             Op::IncomingSigned { request, tid, from, cred, good } => json!({"op": "incoming_signed", "request": request, "tid": tid, "from": from, "cred": cred, "good": good}),
             Op::IncomingBurst { first, count } => json!({"op": "incoming_burst", "first": first, "count": count}),
+            Op::IncomingFlood { from, count } => json!({"op": "incoming_flood", "from": from, "count": count}),
             Op::SendBurst { first, count } => json!({"op": "send_burst", "first": first, "count": count}),
             Op::Cancel(t) => json!({"op": "cancel", "tid": t}),
             Op::CancelRetrans(t) => json!({"op": "cancel_retransmissions", "tid": t}),
@@ -303,6 +338,7 @@ impl Op {
             "incoming" => Op::Incoming { request: v.get("request")?.as_bool()?, tid: u("tid")? as u8, from: u("from")? as u8 },
             "incoming_signed" => Op::IncomingSigned { request: v.get("request")?.as_bool()?, tid: u("tid")? as u8, from: u("from")? as u8, cred: u("cred")? as u8, good: v.get("good")?.as_bool()? },
             "incoming_burst" => Op::IncomingBurst { first: u("first")? as u16, count: u("count")? as u16 },
+            "incoming_flood" => Op::IncomingFlood { from: u("from")? as u8, count: u("count")? as u32 },
             "send_burst" => Op::SendBurst { first: (u("first")? as u16).max(NTID as u16), count: u("count")? as u16 },
             "cancel" => Op::Cancel(u("tid")? as u8),
             "cancel_retransmissions" => Op::CancelRetrans(u("tid")? as u8),
@@ -897,7 +933,9 @@ impl<'c> Eng<'c> {
             }
         }
         // an address never handed to the agent is never validated
-        if self.agent.is_validated_peer("203.0.113.9:9".parse().unwrap()) || self.agent.is_validated_peer(self.local) {
+        // (the agent's own address counts as such unless a message was accepted from that very address)
+        let local_heard = self.model.validated.iter().any(|i| addr(*i) == self.local);
+        if self.agent.is_validated_peer("203.0.113.9:9".parse().unwrap()) || (!local_heard && self.agent.is_validated_peer(self.local)) {
             self.fail("C15", "validated-peers", "StunAgent::is_validated_peer", "unrelated-address", "false".into(), "true".into());
         }
     }
@@ -1471,6 +1509,17 @@ impl<'c> Eng<'c> {
                     self.do_handle(b, *first as usize + j, false, tid);
                 }
                 self.ctx.count_n("burst-peers", *count as u64);
+            }
+            Op::IncomingFlood { from, count } => {
+                for j in 0..*count as usize {
+                    if self.failed {
+                        break;
+                    }
+                    let tid = (j % NTID) as u8;
+                    let b = build_incoming(j % 3 == 0, tid, (j % 4096) as u16);
+                    self.do_handle(b, *from as usize, false, tid);
+                }
+                self.ctx.count_n("flood-messages-from-one-peer", *count as u64);
             }
             Op::Cancel(tid) | Op::CancelRetrans(tid) => {
                 let i = *tid as usize % NTID;
